@@ -26,7 +26,8 @@ ASSUMPTIONS = [
 REQUIRED_COUNTERS = ['orders_checked', 'permutations_checked']
 D = decimal.Decimal
 CLASSES = ['int', 'float', 'decimal', 'mixed', 'huge', 'highprec', 'negzero', 'text', 'text_unicode',
-           'num_num', 'num_text', 'text_num', 'text_text', 'fmt_pad', 'fmt_sep', 'callable', 'multi_resource', 'overflow']
+           'num_num', 'num_text', 'text_num', 'text_text', 'fmt_pad', 'fmt_sep', 'callable', 'multi_resource', 'overflow',
+           'nan_present']
 
 
 def gen_cases(tier, seed):
@@ -40,7 +41,7 @@ def gen_cases(tier, seed):
             yield {'family': c, 'idx': i, 'seed': seed, 'spill': False}
 
 
-TEXT = ['a', 'a0', 'aa', 'ab', 'abc', 'b', '', 'B', 'a b', 'a!', 'a~', 'z']
+TEXT = ['a', 'a0', 'aa', 'ab', 'abc', 'b', '', 'B', 'a b', 'a!', 'a~', 'z', 'a\x00', 'a\x00b', 'a\x01', '\x00']
 TEXT_U = ['é', 'e', 'ż', 'z', '日本', '日', '😀', 'a😀', 'ß', 'ss', 'Z', '\x7f']
 TEXT_NOPREFIX = ['ax', 'bx', 'ay', 'cz', 'Bq', 'éx', 'a0']
 
@@ -56,6 +57,9 @@ def keyval(rng, c):
         return rng.choice([1, 1.5, D('1.25'), -1, -1.5, D('-1.25'), 2, 2.0, D('2'), 0, 10, D('9.5')])
     if c == 'huge':
         return rng.choice([2 ** 53, 2 ** 53 + 1, 2 ** 53 + 2, -2 ** 53 - 1, -2 ** 53, 2 ** 70, 2 ** 70 + 1, 5])
+    if c == 'nan_present':
+        # NaN has no place in the order; the other keys still have theirs and nothing may fail
+        return rng.choice([D('NaN'), float('nan'), 1, 2.5, D('-3'), 0, D('7.25')])
     if c == 'overflow':
         # integers are unbounded: values beyond the float64 range are valid integer cells
         return rng.choice([10 ** 400, -10 ** 400, 10 ** 400 + 1, 3, -3, 0])
@@ -126,6 +130,36 @@ def run_multi(case, rng):
                 sample={'config': cfg})
 
 
+def run_nan(case, rows, key, reverse, batch, cfg, d, counters, cov, viol):
+    def isnan(v):
+        return v != v
+    flds = [{'name': 'id', 'type': 'integer'}, {'name': 'k', 'type': 'number'}]
+    got = lab.run([lab.source('res', flds, rows), d.sort_rows(key, reverse=reverse, batch_size=batch)])
+    n = len(rows)
+
+    def add(kind, msg):
+        viol.append({'kind': kind, 'mech': 'nan_present', 'key_class': 'nan_present', 'msg': msg, 'config': cfg})
+    if not got.ok:
+        add('unexpected_error', '%r: %s' % (cfg, got.errstr()))
+        return dict(nontrivial=False, violations=viol, cov=cov, counters=counters)
+    out = got.results[0]
+    counters['permutations_checked'] += 1
+    counters['orders_checked'] += 1
+    if sorted(r['id'] for r in out) != list(range(n)):
+        add('not_permutation', '%r: rows lost / duplicated' % (cfg,))
+    else:
+        real = [r for r in out if not isnan(r['k'])]
+        want = [r for _, r in sorted(((i, r) for i, r in enumerate(rows) if not isnan(r['k'])),
+                                     key=lambda p: (D(p[1]['k']), p[0]))]
+        if reverse:
+            # equal keys keep input order in the ascending result; the reverse output is exactly its reverse
+            want = list(reversed(want))
+        if [r['id'] for r in real] != [r['id'] for r in want]:
+            add('order', '%r: the rows whose key is a number are not in order: %r' % (cfg, [r['k'] for r in real][:8]))
+    return dict(nontrivial=len(rows) > 2, violations=viol, cov=cov, counters=counters,
+                sample={'config': cfg})
+
+
 def run_case(case):
     c = case['family']
     rng = boot.rng(case['seed'], 'C12', c, case['idx'])
@@ -142,7 +176,8 @@ def run_case(case):
     reverse = rng.random() < 0.4
     batch = rng.choice([1, 2, 7, 1000]) if n <= 1000 else rng.choice([7, 1000])
     # key fields + typed key function
-    if c in ('int', 'float', 'decimal', 'mixed', 'huge', 'highprec', 'negzero', 'text', 'text_unicode', 'overflow'):
+    if c in ('int', 'float', 'decimal', 'mixed', 'huge', 'highprec', 'negzero', 'text', 'text_unicode', 'overflow',
+             'nan_present'):
         rows = [{'id': i, 'k': keyval(rng, c)} for i in range(n)]
         form = rng.choice(['fmt', 'list', 'tuple'])
         key = {'fmt': '{k}', 'list': ['k'], 'tuple': ('k',)}[form]
@@ -186,6 +221,8 @@ def run_case(case):
     cov['regime']['spill' if n > 10240 else 'memory'] = 1
     cfg = {'class': c, 'form': form, 'key': key if not callable(key) else 'callable', 'n': n,
            'reverse': reverse, 'batch_size': batch}
+    if c == 'nan_present':
+        return run_nan(case, rows, key, reverse, batch, cfg, d, counters, cov, viol)
     # reference: stable sort on the exact typed key
     asc = [r for _, r in sorted(enumerate(rows), key=lambda p: (tkey(p[1]), p[0]))]
     exp = list(reversed(asc)) if reverse else asc
